@@ -110,6 +110,8 @@ impl Expr {
     }
 
     pub fn run(&self, constants: &dyn Context) -> Result<i64, ExprRunError> {
+        #[cfg(feature = "verif")]
+        let _verif_depth = crate::verif::depth_guard();
         match self {
             Expr::Ident(ident) => match constants.get_expr(ident) {
                 Some(Expr::Const(address)) => Ok(address),
